@@ -114,10 +114,15 @@ impl ArgValidation for Expressions {
 
     fn require_string_ref(&self, index: usize) -> Result<(), LintErrorPos> {
         match self.expr(index) {
-            Expression::Variable(_, expression_type)
-            | Expression::ArrayElement(_, _, expression_type)
-            | Expression::Property(_, _, expression_type) => {
-                if expression_type.can_cast_to(&TypeQualifier::DollarString) {
+            Expression::Variable(_, _)
+            | Expression::ArrayElement(_, _, _)
+            | Expression::Property(_, _, _) => {
+                // the type of the expression, not of the elements: `A$()` is an array
+                if self
+                    .expr(index)
+                    .expression_type()
+                    .can_cast_to(&TypeQualifier::DollarString)
+                {
                     Ok(())
                 } else {
                     Err(LintError::ArgumentTypeMismatch.at(&self[index]))
@@ -129,9 +134,9 @@ impl ArgValidation for Expressions {
 
     fn require_variable_of_built_in_type(&self, index: usize) -> Result<(), LintErrorPos> {
         match self.expr(index) {
-            Expression::Variable(_, expression_type)
-            | Expression::ArrayElement(_, _, expression_type)
-            | Expression::Property(_, _, expression_type) => match expression_type {
+            Expression::Variable(_, _)
+            | Expression::ArrayElement(_, _, _)
+            | Expression::Property(_, _, _) => match self.expr(index).expression_type() {
                 ExpressionType::BuiltIn(_) | ExpressionType::FixedLengthString(_) => Ok(()),
                 _ => Err(LintError::ArgumentTypeMismatch.at(&self[index])),
             },
